@@ -7,7 +7,7 @@ use std::io::Write;
 
 use fastrace::verif::{self, Point};
 
-use crate::orch::{fmt_records, Orch, St, COLLECTOR};
+use crate::orch::{eop_route, fmt_records, Orch, St, COLLECTOR};
 use crate::rng::Rng;
 
 #[derive(Clone, Debug, PartialEq)]
@@ -22,6 +22,8 @@ enum TSt {
 enum NestKind {
     Closure,
     Poll { a: u64, meth: &'static str },
+    /// one poll of a persistent enter_on_poll future: begun by `lenter l`, ended by `lexit l`
+    Eop { l: u64 },
 }
 
 #[derive(Clone, Debug)]
@@ -108,6 +110,8 @@ struct Gen<'a> {
     mute: bool,
     nactions: usize,
     stats: &'a mut BTreeMap<String, u64>,
+    /// name of the enter_on_poll future in (thread, slot)
+    eop_names: BTreeMap<(usize, usize), u64>,
 }
 
 #[derive(Clone, Debug)]
@@ -217,6 +221,7 @@ impl<'a> Gen<'a> {
             let entered = match n.kind {
                 NestKind::Closure => reply == "b1",
                 NestKind::Poll { .. } => reply == "u",
+                NestKind::Eop { .. } => reply == "u",
             };
             if entered {
                 th.nest.push(n);
@@ -415,6 +420,7 @@ impl<'a> Gen<'a> {
                         };
                         cands.push((8, c(vec![s("polle"), s(a), s(meth), s(res)])));
                     }
+                    NestKind::Eop { l } => cands.push((9, c(vec![s("lexit"), s(l)]))),
                 }
             }
         }
@@ -448,7 +454,20 @@ impl<'a> Gen<'a> {
                 let p = self.pick_span(&all);
                 cands.push((6, c(vec![s("setl"), s(self.next_handle + 1), s(p)])));
             }
-            cands.push((8, c(vec![s("lenter"), s(self.next_handle + 1), s(self.next_sym + 1)])));
+            {
+                let l = self.next_handle + 1;
+                match eop_route(l) {
+                    None => cands.push((8, c(vec![s("lenter"), s(l), s(self.next_sym + 1)]))),
+                    Some(slot) => {
+                        // the slot's future is being polled right now: it cannot be polled again
+                        let open = th.nest.iter().any(|n| matches!(n.kind, NestKind::Eop { l: l2 } if eop_route(l2) == Some(slot)));
+                        if !open && th.nest.len() < 3 {
+                            let name = self.eop_names.get(&(t, slot)).copied().unwrap_or(self.next_sym + 1);
+                            cands.push((8, c(vec![s("lenter"), s(l), s(name)])));
+                        }
+                    }
+                }
+            }
             cands.push((2, c(vec![s("lcstart"), s(self.next_handle + 1)])));
         }
         if let Some((k, id)) = top {
@@ -473,7 +492,7 @@ impl<'a> Gen<'a> {
             }
         }
         let locals_out: Vec<u64> = th.nest.iter().filter_map(|n| n.local).collect();
-        let locals: Vec<u64> = th.scoped.iter().filter(|(k, id)| *k == 'l' && !locals_out.contains(id)).map(|(_, id)| *id).collect();
+        let locals: Vec<u64> = th.scoped.iter().filter(|(k, id)| *k == 'l' && !locals_out.contains(id) && eop_route(*id).is_none()).map(|(_, id)| *id).collect();
         if !locals.is_empty() && th.nest.len() < 2 {
             let l = *self.rng.pick(&locals);
             let ps = self.props();
@@ -591,7 +610,12 @@ impl<'a> Gen<'a> {
                 let l = pu(&toks[1]);
                 self.next_handle = self.next_handle.max(l);
                 self.next_sym = self.next_sym.max(pu(&toks[2]));
-                self.threads.get_mut(&t).unwrap().scoped.push(('l', l));
+                let th = self.threads.get_mut(&t).unwrap();
+                th.scoped.push(('l', l));
+                if let Some(slot) = eop_route(l) {
+                    self.eop_names.insert((t, slot), pu(&toks[2]));
+                    th.pending_nest = Some(Nest { kind: NestKind::Eop { l }, base: th.scoped.len(), busy: vec![], local: None });
+                }
             }
             "lcstart" => {
                 let l = pu(&toks[1]);
@@ -599,7 +623,14 @@ impl<'a> Gen<'a> {
                 self.threads.get_mut(&t).unwrap().scoped.push(('c', l));
             }
             "dropg" | "lexit" | "lcdrop" => {
-                self.threads.get_mut(&t).unwrap().scoped.pop();
+                let th = self.threads.get_mut(&t).unwrap();
+                th.scoped.pop();
+                if head == "lexit" {
+                    let l = pu(&toks[1]);
+                    if matches!(th.nest.last().map(|n| &n.kind), Some(NestKind::Eop { l: l2 }) if *l2 == l) {
+                        th.nest.pop();
+                    }
+                }
             }
             "lccollect" => {
                 let id = pu(&toks[1]);
@@ -797,6 +828,7 @@ impl<'a> Gen<'a> {
                     let toks = match &n.kind {
                         NestKind::Closure => vec![s("cret")],
                         NestKind::Poll { a, meth } => vec![s("polle"), s(a), s(meth), s("final")],
+                        NestKind::Eop { l } => vec![s("lexit"), s(l)],
                     };
                     self.do_call(t, toks);
                 } else {
@@ -902,6 +934,7 @@ pub fn generate(seed: u64, first: usize, n: usize, prof_name: &str, out: &mut dy
             mute: false,
             nactions: 0,
             stats: &mut stats,
+            eop_names: BTreeMap::new(),
         };
         while g.nactions < len && !g.dead {
             g.step();
@@ -991,6 +1024,7 @@ pub fn replay(path: &str, out: &mut dyn Write) {
                 mute: false,
                 nactions: 0,
                 stats: &mut stats,
+                eop_names: BTreeMap::new(),
             };
             for toks in acts {
                 if g.dead {
